@@ -189,7 +189,8 @@ func runC06Hit(c *Ctx, a *attackAnchors) {
 		eachInstr(a.HitDefer, func(i ssa.Instruction) {
 			if st, ok := resultFieldStore(i, "Error"); ok {
 				for _, f := range factsAt(st.Block()) {
-					if bo, isBo := f.Cond.(*ssa.BinOp); isBo && bo.Op == token.NEQ && f.Val && loadedCell(bo.X) == errCell {
+					// `err != nil` known true, or `err == nil` known false (guard clause with an early return)
+					if bo, isBo := f.Cond.(*ssa.BinOp); isBo && (bo.Op == token.NEQ && f.Val || bo.Op == token.EQL && !f.Val) && loadedCell(bo.X) == errCell && isNilConst(bo.Y) {
 						okG = true
 					}
 				}
